@@ -9,7 +9,7 @@ namespace Chumsky
 
 /-! ### `&str`: byte offsets -/
 
-theorem utf8w_pos (c : Nat) : 1 ≤ utf8w c := by
+theorem utf8w_ge_one (c : Nat) : 1 ≤ utf8w c := by
   unfold utf8w; repeat' split
   all_goals omega
 
@@ -32,7 +32,7 @@ theorem strOff_succ (toks : List Nat) (i : Nat) (c : Nat) (h : toks[i]? = some c
     | zero => simp at h; subst h; simp [strOff]
     | succ k => simp at h; simp only [strOff]; rw [ih k h]; omega
 
-theorem strOff_mono (toks : List Nat) {i j : Nat} (h : i ≤ j) : strOff toks i ≤ strOff toks j := by
+theorem strOff_le_of_le (toks : List Nat) {i j : Nat} (h : i ≤ j) : strOff toks i ≤ strOff toks j := by
   induction toks generalizing i j with
   | nil => cases i <;> cases j <;> simp [strOff]
   | cons c cs ih =>
@@ -44,7 +44,7 @@ theorem strOff_mono (toks : List Nat) {i j : Nat} (h : i ≤ j) : strOff toks i 
       | succ j' => simp only [strOff]; have := ih (i := i') (j := j') (by omega); omega
 
 /-- a non-empty range of characters has a non-empty byte range -/
-theorem strOff_strict (toks : List Nat) {i j : Nat} (h : i < j) (hj : j ≤ toks.length) : strOff toks i < strOff toks j := by
+theorem strOff_lt_of_lt (toks : List Nat) {i j : Nat} (h : i < j) (hj : j ≤ toks.length) : strOff toks i < strOff toks j := by
   induction toks generalizing i j with
   | nil => simp at hj; omega
   | cons c cs ih =>
@@ -52,7 +52,7 @@ theorem strOff_strict (toks : List Nat) {i j : Nat} (h : i < j) (hj : j ≤ toks
     | zero => omega
     | succ j' =>
       cases i with
-      | zero => simp only [strOff]; have := utf8w_pos c; omega
+      | zero => simp only [strOff]; have := utf8w_ge_one c; omega
       | succ i' =>
         simp only [strOff]
         have := ih (i := i') (j := j') (by omega) (by simpa using hj); omega
@@ -61,7 +61,7 @@ theorem strOff_strict (toks : List Nat) {i j : Nat} (h : i < j) (hj : j ≤ toks
 def strLen (toks : List Nat) : Nat := strOff toks toks.length
 
 theorem strOff_le_len (toks : List Nat) {j : Nat} (hj : j ≤ toks.length) : strOff toks j ≤ strLen toks :=
-  strOff_mono toks hj
+  strOff_le_of_le toks hj
 
 /-! ### `Input::map` / `IterInput`: the tokens' own spans -/
 
